@@ -442,6 +442,11 @@ def device_sequences(g, devices):
             body.append(P.instr(c["mn"], *[to_prog_op(o) for o in c["ops"]]))
             body += [P.label("after"), P.instr("rjmp", P.E(P.sym("after"))), P.data(2, P.E(P.sym("after")))]
             out.append((devname, head + body))
+            if devname and i % 4 == 0:
+                # the device is selected by a macro body, the form stands before the (first) call of that macro
+                mac = [P.line("macro", n="chip"), P.line("device", n=devname), P.line("endm")]
+                out.append((devname, mac + copy.deepcopy(body) + [P.call("chip")]))
+                out.append((devname, mac + [P.call("chip")] + copy.deepcopy(body)))
     return out
 
 
